@@ -50,6 +50,10 @@ pub struct FbCase {
     /// first, override later): the strategy configured last is the configured strategy
     #[serde(default)]
     pub strategy_decoy: bool,
+    /// the layer's instance name: 0 short, 1 eighty ASCII characters, 2/3 long with two-byte
+    /// characters from byte 63 / 62 on (a name is a label, nothing about a call depends on it)
+    #[serde(default)]
+    pub name_kind: u8,
 }
 
 fn default_backup_code() -> u32 {
@@ -69,9 +73,9 @@ fn case_strategy(_tier: Tier) -> BoxedStrategy<FbCase> {
         any::<bool>(),
         prop::collection::vec((0u8..3, 0u8..3), 0..=3),
         prop_oneof![2 => Just(0u8), 1 => Just(1u8), 1 => Just(2u8)],
-        (prop_oneof![2 => Just(0u8), 1 => 1u8..=3], prop::bool::weighted(0.3), prop::bool::weighted(0.3)),
+        (prop_oneof![2 => Just(0u8), 1 => 1u8..=3], prop::bool::weighted(0.3), prop::bool::weighted(0.3), prop_oneof![2 => Just(0u8), 1 => 1u8..=3]),
     )
-        .prop_map(|(req_id, req_key, req_tag, value_serial, code_a, code_b, lat, backup_code, handle_first, more_calls, group_mode, (listeners, nested_backup, strategy_decoy))| FbCase {
+        .prop_map(|(req_id, req_key, req_tag, value_serial, code_a, code_b, lat, backup_code, handle_first, more_calls, group_mode, (listeners, nested_backup, strategy_decoy, name_kind))| FbCase {
             req_id,
             req_key,
             req_tag,
@@ -86,6 +90,7 @@ fn case_strategy(_tier: Tier) -> BoxedStrategy<FbCase> {
             listeners,
             nested_backup,
             strategy_decoy,
+            name_kind,
         })
         .boxed()
 }
@@ -181,7 +186,13 @@ async fn run_grid(case: &FbCase) -> (Vec<String>, usize, Vec<serde_json::Value>)
                 };
                 let asked = Arc::new(AtomicU64::new(0));
                 let mut errors_seen = 0u64;
-                let mut b = FallbackLayer::<Req, Resp, SErr>::builder().name("vcheck");
+                let name: String = match case.name_kind {
+                    0 => "vcheck".into(),
+                    1 => "n".repeat(80),
+                    2 => "n".repeat(63) + &"\u{e9}".repeat(12),
+                    _ => "n".repeat(62) + &"\u{e9}".repeat(12),
+                };
+                let mut b = FallbackLayer::<Req, Resp, SErr>::builder().name(name);
                 let events_seen = Arc::new(AtomicU64::new(0));
                 if case.listeners & 1 != 0 {
                     let ev = events_seen.clone();
@@ -613,6 +624,9 @@ impl Property for C17 {
         }
         if case.strategy_decoy {
             r.class("another_strategy_set_first_then_overridden");
+        }
+        if case.name_kind != 0 {
+            r.class("long_instance_name");
         }
         if !case.more_calls.is_empty() {
             r.class("several_calls_per_cell");
